@@ -210,6 +210,19 @@ func runLedgerCheck(id string, replay string) int {
 	}
 	if replay != "" {
 		return replayCase(run, replay, func(raw json.RawMessage) []ev.Finding {
+			var probe struct {
+				Part string `json:"part"`
+			}
+			_ = json.Unmarshal(raw, &probe)
+			if id == "C05" && probe.Part == "refund" {
+				var rc c05RefundCase
+				if err := json.Unmarshal(raw, &rc); err != nil {
+					fmt.Fprintln(os.Stderr, err)
+					os.Exit(2)
+				}
+				_, _, fs := c05RefundRun(c05RefundWorld(), rc)
+				return fs
+			}
 			var c ledgerCase
 			if err := json.Unmarshal(raw, &c); err != nil {
 				fmt.Fprintln(os.Stderr, err)
@@ -225,6 +238,9 @@ func runLedgerCheck(id string, replay string) int {
 		cases = ledgerCases(run.Thorough())
 	}
 	run.Sharded(Shards(), func(shard, n int) {
+		if id == "C05" && shard == 0 {
+			c05RefundPass(run, c05RefundWorld())
+		}
 		for i, c := range cases {
 			if i%n != shard {
 				continue
@@ -276,7 +292,11 @@ func runLedgerCheck(id string, replay string) int {
 	run.Coverage["evaluations"] = len(cases)
 	run.Coverage["exhaustive"] = true
 	run.Coverage["max_depth"] = 2
-	run.Coverage["rule"] = fmt.Sprintf("single-tx blocks: full product of %d kinds × %d fee shapes × 4 gas limits {used, used+1, 2×used, 6M} × MaxGas∈{40M,100k}; two-tx blocks: (kind × fee/gas combo)² × {same, different sender} × both worlds; two-block histories after 2 fixed first blocks%s. distinct_nontrivial = distinct histories in which an unused-gas refund was due or a tx failed after admission", len(ledgerKinds), len(ledgerFees), map[bool]string{false: "", true: "; three-tx blocks with a Cosmos tx in the middle"}[run.Thorough()])
+	refundRule := ""
+	if id == "C05" {
+		refundRule = "; refund pass (keeper level, counting tracer): contracts clearing 0..8 pre-set slots and one setting fresh slots x 7 gas limits {3M, consumed, consumed+1, 2x, 5x, 6M, 30M}: reported gas used = consumed - min(4800 x clears, consumed/5) and independent of the limit"
+	}
+	run.Coverage["rule"] = refundRule[min(2, len(refundRule)):] + " " + fmt.Sprintf("single-tx blocks: full product of %d kinds × %d fee shapes × 4 gas limits {used, used+1, 2×used, 6M} × MaxGas∈{40M,100k}; two-tx blocks: (kind × fee/gas combo)² × {same, different sender} × both worlds; two-block histories after 2 fixed first blocks%s. distinct_nontrivial = distinct histories in which an unused-gas refund was due or a tx failed after admission", len(ledgerKinds), len(ledgerFees), map[bool]string{false: "", true: "; three-tx blocks with a Cosmos tx in the middle"}[run.Thorough()])
 	return run.Finish()
 }
 
